@@ -155,6 +155,10 @@ m('M88-partial-rounds-array-copy', ['C10'], (PB2, "\t\tnewState0 := frontend.Var
 m('M89-mix-accumulates-on-input', ['C10'], (PB2, "\t\tresult[i] = frontend.Variable(0)\n", "\t\tresult[i] = state_[i]\n"))
 m('M90-poseidon-keeps-state', ['C10'], (PB2, "\tstate = c.fullRounds(state, true)\n\tstate = c.partialRounds(state)\n", "\tstate = c.fullRounds(state, true)\n\tbefore := state\n\tstate = c.partialRounds(state)\n\tc.api.AssertIsDifferent(before[1], state[1])\n"))
 
+# ---- added after the third batch of seeded changes
+m('M91-chip-value-receiver', ['C03', 'C06'], (B, "func (p *Chip) RangeCheckWithMaxBits(x Variable, maxNbBits uint64) {", "func (p Chip) RangeCheckU32(x Variable) {\n\tp.RangeCheckWithMaxBits(x, 32)\n}\n\nfunc (p *Chip) RangeCheckWithMaxBits(x Variable, maxNbBits uint64) {"), (U, "glChip.RangeCheckWithMaxBits(slicePub[i], 32)", "glChip.RangeCheckU32(slicePub[i])"))
+m('M92-dispatch-default-collects', ['C06'], (B, "\tcase NATIVE_RANGE_CHECKER, BIT_DECOMP_RANGE_CHECKER:\n\t\tp.rangeChecker.Check(x, nbBits)\n\tcase COMMIT_RANGE_CHECKER:", "\tcase BIT_DECOMP_RANGE_CHECKER:\n\t\tp.rangeChecker.Check(x, nbBits)\n\tdefault:"))
+
 # ---- behaviour-preserving refactors: must stay silent on every property
 ALL = ['C01', 'C02', 'C03', 'C04', 'C05', 'C06', 'C07', 'C08', 'C09', 'C10', 'C11', 'C12', 'C13', 'C14', 'C15', 'C16', 'C17', 'C18', 'C19', 'C20']
 m('R02-inline-assertLeadingZeros', [], (F, "\tf.assertLeadingZeros(friChallenges.FriPowResponse, f.friParams.Config)\n", "\tf.gl.RangeCheckWithMaxBits(friChallenges.FriPowResponse, 64-f.friParams.Config.ProofOfWorkBits)\n"))
@@ -205,6 +209,9 @@ m('R47-muladdnoreduce-add-zero-copy', [], (B, "\tcLimbCopy := p.api.Mul(c.Limb, 
 m('R48-partial-rounds-temp-acc', [], ('poseidon/bn254.go', "\t\t\tstate[k] = c.api.MulAcc(state[k], state[0], sConstants[(BN254_SPONGE_WIDTH*2-1)*i+BN254_SPONGE_WIDTH+k-1])", "\t\t\tfirst := state[0]\n\t\t\tacc := state[k]\n\t\t\tacc = c.api.MulAcc(acc, first, sConstants[(BN254_SPONGE_WIDTH*2-1)*i+BN254_SPONGE_WIDTH+k-1])\n\t\t\tstate[k] = acc"))
 m('R49-mix-scalar-acc', [], ('poseidon/bn254.go', "\t\tfor j := 0; j < BN254_SPONGE_WIDTH; j++ {\n\t\t\tresult[i] = c.api.MulAcc(result[i], constantMatrix[j][i], state_[j])\n\t\t}", "\t\tacc := frontend.Variable(0)\n\t\tfor j := 0; j < BN254_SPONGE_WIDTH; j++ {\n\t\t\tacc = c.api.MulAcc(acc, constantMatrix[j][i], state_[j])\n\t\t}\n\t\tresult[i] = acc"))
 m('R50-poseidon-named-stages', [], ('poseidon/bn254.go', "\tstate = c.ark(state, 0)\n\tstate = c.fullRounds(state, true)\n\tstate = c.partialRounds(state)\n\tstate = c.fullRounds(state, false)\n\treturn state", "\ts0 := c.ark(state, 0)\n\ts1 := c.fullRounds(s0, true)\n\ts2 := c.partialRounds(s1)\n\treturn c.fullRounds(s2, false)"))
+m('R51-chip-pointer-helper', [], (B, "func (p *Chip) RangeCheckWithMaxBits(x Variable, maxNbBits uint64) {", "func (p *Chip) RangeCheckU32(x Variable) {\n\tp.RangeCheckWithMaxBits(x, 32)\n}\n\nfunc (p *Chip) RangeCheckWithMaxBits(x Variable, maxNbBits uint64) {"), (U, "glChip.RangeCheckWithMaxBits(slicePub[i], 32)", "glChip.RangeCheckU32(slicePub[i])"))
+m('R52-dispatch-if-form', [], (B, "\tswitch p.rangeCheckerType {\n\tcase NATIVE_RANGE_CHECKER, BIT_DECOMP_RANGE_CHECKER:\n\t\tp.rangeChecker.Check(x, nbBits)\n\tcase COMMIT_RANGE_CHECKER:", "\tif p.rangeCheckerType != COMMIT_RANGE_CHECKER {\n\t\tp.rangeChecker.Check(x, nbBits)\n\t\treturn\n\t}\n\tswitch p.rangeCheckerType {\n\tcase COMMIT_RANGE_CHECKER:"))
+m('R53-chip-value-getter', [], (B, "func (p *Chip) RangeCheckWithMaxBits(x Variable, maxNbBits uint64) {", "func (p Chip) API() frontend.API {\n\treturn p.api\n}\n\nfunc (p *Chip) RangeCheckWithMaxBits(x Variable, maxNbBits uint64) {"))
 
 if __name__ == '__main__':
     import json, sys
